@@ -191,12 +191,17 @@ MANIFEST = {
     "design_ref": "DESIGN.md §5 C13",
     "technique": "Lean 4: the engine model's failing steps are identities by construction for non-in-place ops and by a proved "
                  "restore lemma for in-place ops; correspondence on programs with failing statements; twin-program oracle",
-    "text": "In the engine model a failing non-view/view op returns no new heap (failed_op_is_noop) and a failing in-place update "
-            "returns the heap DuplicatingGraph.restore produces, which is proved to re-route every consumer back and to leave "
-            "every public tensor's value, flag, base and creator as before (restore_reroutes_back, "
-            "failed_inplace_keeps_public_state). The model with failures is run against MyGrad; the direct oracle snapshots all "
-            "tensors around every failing statement, compares the final state and gradients with the program without the failing "
-            "statements, and checks that no array stays locked.",
+    "text": "In the engine model a failing non-in-place op produces no heap at all, so the driver keeps its whole "
+            "state (failed_op_is_noop). A failing in-place update has, when the kernel raises, already replaced "
+            "the public tensor by a placeholder in every recorded consumer; reroute_spec characterises "
+            "reroute_ops_through exactly (tensors and buffers untouched, variables mapped in the listed ops "
+            "only), restore_reroutes_back shows routing through a fresh placeholder and back is the identity on "
+            "every op's variables, and restore_inverts_duplicate concludes that DuplicatingGraph(x) followed by "
+            "restore_old_graph leaves every pre-existing tensor (value, flag, base, creator, consumers, view "
+            "children), every buffer and every op's variable list unchanged (base tensor without live views; the "
+            "forest case is validated by correspondence). The model with failures is run against MyGrad; the "
+            "direct oracle snapshots all tensors around every failing statement, compares the final state and "
+            "gradients with the program without the failing statements, and checks that no array stays locked.",
     "note": "Trusted: Lean kernel, standard axioms, correspondence harness. The target's own .grad is nulled before the attempt "
             "(the property does not list it). Lock release on failure is decided by the direct oracle and by C08's model.",
 }
